@@ -696,22 +696,8 @@ func checkC19(p *Prog, r *Report) {
 			if !r.Anchor(s.fn, f != nil) {
 				continue
 			}
-			found := false
-			walkBody(f, func(n ast.Node) bool {
-				rs, ok := n.(*ast.ReturnStmt)
-				if !ok || len(rs.Results) == 0 {
-					return true
-				}
-				last := rs.Results[len(rs.Results)-1]
-				if !p.MentionsObj(last, "ice."+s.errName) {
-					return true
-				}
-				facts, _ := p.FactsAtCall(f, rs)
-				if s.guard(f, facts) {
-					found = true
-				}
-				return true
-			})
+			s := s
+			found := p.guardLeadsToError(f, func(ft Fact) bool { return s.guard(f, FactSet{ft.Key: ft}) }, "ice."+s.errName)
 			r.Check(found, s.fn+": "+s.what, p.Pos(f.Body.Pos()), "error return "+s.errName+" under the guard", "no return of "+s.errName+" under the corresponding test: the invalid rule set is accepted")
 		}
 		// IP parse errors propagate
@@ -721,22 +707,14 @@ func checkC19(p *Prog, r *Report) {
 				continue
 			}
 			for _, c := range p.CallsTo(f, false, "ice.validateIPString") {
-				ok := false
-				loc, found := p.CFG(f).Locate(c)
-				if found {
-					for _, n := range p.CFG(f).NodesAfter(loc) {
-						if rs, ok2 := n.(*ast.ReturnStmt); ok2 && len(rs.Results) > 0 {
-							facts, _ := p.FactsAtCall(f, rs)
-							if _, isErr := p.HasCallEqNil(facts, f, "ice.validateIPString", 2, false); isErr {
-								if id, ok3 := unparen(rs.Results[len(rs.Results)-1]).(*ast.Ident); ok3 {
-									if _, isVar := p.ObjOf(id).(*types.Var); isVar {
-										ok = true
-									}
-								}
-							}
-						}
+				c := c
+				ok := p.guardLeadsToError(f, func(ft Fact) bool {
+					if ft.Op != "==" || ft.Val || ft.Y == nil || !p.isNilExpr(ft.Y) {
+						return false
 					}
-				}
+					cc, i, okR := p.ResolveCall(f, ft.X)
+					return okR && cc == c && i == 2
+				}, "")
 				r.Check(ok, fn+": bad IP rejected", p.Pos(c.Pos()), "validateIPString error is returned", "an unparsable IP string does not abort construction")
 			}
 		}
@@ -889,4 +867,50 @@ func checkC19(p *Prog, r *Report) {
 		})
 		r.Check(ok && n > 0, "findIfaceForIP compares addresses in one form", p.Pos(f.Body.Pos()), "String() == String()", why+": interface-scoped srflx / relay rules are skipped and a less specific rule decides the advertised address")
 	}
+}
+
+// guardLeadsToError: wherever a fact accepted by guard is established in f, every path from
+// there to the normal exit returns a non-nil error (a return whose last result is not the nil
+// literal; a path on which the error variable is known to be nil is pruned by the flag-aware
+// search), and — when a sentinel is given — the sentinel error is mentioned on the way.
+func (p *Prog) guardLeadsToError(f *Func, guard func(Fact) bool, sentinel string) bool {
+	g := p.CFG(f)
+	starts := p.branchStarts(f, guard)
+	if len(starts) == 0 {
+		return false
+	}
+	isErrReturn := func(n ast.Node) bool {
+		rs, ok := n.(*ast.ReturnStmt)
+		if !ok || len(rs.Results) == 0 {
+			return false
+		}
+		last := rs.Results[len(rs.Results)-1]
+		if p.isNilExpr(last) {
+			return false
+		}
+		t := p.TypeOf(last)
+		return t != nil && isErrType(t)
+	}
+	for _, b := range starts {
+		if _, escapes := g.PathAvoiding(Loc{b, 0}, isErrReturn, func(x *Block) bool { return x == g.Exit }, nil); escapes {
+			return false
+		}
+		if sentinel != "" {
+			mentioned := false
+			for bl := range g.Reach([]*Block{b}, nil) {
+				for _, n := range bl.Nodes {
+					if _, isRA := n.(*RangeAssign); isRA {
+						continue
+					}
+					if p.MentionsObj(n, sentinel) {
+						mentioned = true
+					}
+				}
+			}
+			if !mentioned {
+				return false
+			}
+		}
+	}
+	return true
 }
